@@ -807,6 +807,8 @@ Definition pct_string (d : str) : str := N_to_str (digits_val d 0).
 Definition p_pct : parser (lagg * str) :=
   fun s => LET _u, r <- ptags Generated.pct_tags s IN
            LET d, r1 <- pdigit1 r IN
+           (* only an operator when an argument list follows (peek(tag("("))): `p90 - p10 as x` is an expression *)
+           if negb (head_is 40 r1) then PFail else
            LET e, r2 <- req_single_arg r1 IN
            let v := Z.of_N (digits_val d 0) in
            if (0 <? v)%Z && (v <? 100)%Z
